@@ -272,6 +272,17 @@ int main(int argc, char** argv) {
     }
   }
   check_early({1});
+  // == between vectors that start at the same address (views of one user buffer, a view laid over an owned vector): equal iff
+  // same dimension and equal components, whatever they share
+  for (int d1 = 2; d1 <= 6; d1++) for (int d2 = 2; d2 <= 6; d2++) {
+    count("evaluations");
+    std::vector<double> buf(36); for (int k = 0; k < 36; k++) buf[k] = 0.5 + 0.01 * k;
+    SU_vector a(d1, buf.data()), b(d2, buf.data());
+    SU_vector own = mkvec(std::max(d1, d2), probe(std::max(d1, d2), 0)); SU_vector head(std::min(d1, d2), &own[0]);
+    bool want = d1 == d2;
+    if ((a == b) != want || (b == a) != want) violation("operator==:views-of-one-buffer", J().i("d1", d1).i("d2", d2).done());
+    if ((own == head) != want || (head == own) != want) violation("operator==:view-over-owned-storage", J().i("d1", d1).i("d2", d2).done());
+  }
   finish();
   return 0;
 }
